@@ -37,6 +37,7 @@ type Case struct {
 	Fillers                                           []Filler
 	Rewrite                                           bool   `json:",omitempty"` // the handler overrides path and method after reading the values (they must stay what they were until it returns)
 	Miss                                              bool   `json:",omitempty"` // before the probe, a request that matches no route at all is answered by the application's ErrorHandler, which keeps what it read
+	After                                             bool   `json:",omitempty"` // before the probe, a GET that only the middleware matches (the endpoint is a POST route, a GET route with a constraint fails late): the middleware reads its parameter again after Next()
 	Multi                                             bool   `json:",omitempty"` // the probe carries one header (X-Multi) in two lines, in the first header slots
 	Pre                                               string `json:",omitempty"` // middleware in front of the endpoint: "" | mw-next (passes on) | mw-params (reads its own route parameter and other accessors, keeps them, passes on)
 }
@@ -277,6 +278,20 @@ func exchange(cs Case, immutable bool) (*run, error) {
 			return c.Next()
 		})
 	}
+	if cs.After {
+		// a middleware that reads its parameter again after Next() returned, on a request that no later route matches
+		// (one route of the same method fails late: its constant and its parameter fit, the constraint does not): the
+		// middleware is still the current route, and what it reads again is what it read before
+		app.Use("/w/:wid", func(c fiber.Ctx) error {
+			before := strings.Clone(c.Params("wid"))
+			err := c.Next()
+			if again := c.Params("wid"); again != before {
+				r.atReturn = append(r.atReturn, fmt.Sprintf("Params(wid) read again by the middleware after Next() returned (no later route matched, Route().Path=%q): %q -> %q", c.Route().Path, before, again))
+			}
+			return err
+		})
+		app.Get("/w/"+cs.ID[:1]+":rest<int>", func(c fiber.Ctx) error { return c.SendString("int") })
+	}
 	app.Post("/u/:id/*", func(c fiber.Ctx) error {
 		r2 := r
 		if c.Query("probe") != "1" {
@@ -286,6 +301,9 @@ func exchange(cs Case, immutable bool) (*run, error) {
 		return nil
 	})
 	conn := cs.probeWire()
+	if cs.After {
+		conn = fmt.Sprintf("GET /w/%s%.0s?after=1 HTTP/1.1\r\nHost: %s.example.com\r\n\r\n", cs.ID, cs.Rest, cs.H1) + conn
+	}
 	if cs.Miss {
 		conn = fmt.Sprintf("GET /nowhere/%s/%s?probe=1 HTTP/1.1\r\nHost: %s.example.com\r\nX-Name: %s\r\n\r\n", cs.ID, cs.Rest, cs.H1, cs.XName) + conn
 	}
@@ -370,7 +388,7 @@ func genCase(t *rapid.T) Case {
 	cs := Case{ID: word(t, "id", 3, 9), Rest: word(t, "rest", 3, 9), QName: word(t, "qn", 3, 9), T1: word(t, "t1", 2, 5), T2: word(t, "t2", 2, 5),
 		H1: word(t, "h1", 2, 5), H2: word(t, "h2", 2, 5), XName: word(t, "xn", 3, 9), Ck: word(t, "ck", 3, 9), FName: word(t, "fn", 3, 9), JSONBody: rapid.IntRange(0, 3).Draw(t, "json") == 0,
 		CEnc: rapid.SampledFrom([]string{"", "", "", "identity", "utf-8", "compress"}).Draw(t, "cenc"),
-		Pre:  rapid.SampledFrom([]string{"", "", "mw-next", "mw-params", "mw-params"}).Draw(t, "pre"), Rewrite: rapid.IntRange(0, 3).Draw(t, "rewrite") == 0, Miss: rapid.IntRange(0, 2).Draw(t, "miss") == 0, Multi: rapid.Bool().Draw(t, "multi")}
+		Pre:  rapid.SampledFrom([]string{"", "", "mw-next", "mw-params", "mw-params"}).Draw(t, "pre"), Rewrite: rapid.IntRange(0, 3).Draw(t, "rewrite") == 0, Miss: rapid.IntRange(0, 2).Draw(t, "miss") == 0, Multi: rapid.Bool().Draw(t, "multi"), After: rapid.Bool().Draw(t, "after")}
 	n := rapid.IntRange(1, 20).Draw(t, "nfill")
 	up := func(label string, lo, hi int) string { return strings.ToUpper(word(t, label, lo, hi)) }
 	for i := 0; i < n; i++ {
